@@ -907,6 +907,7 @@ impl BitOut {
         BitOut { bytes: Vec::new(), nbits: 0 }
     }
     pub fn put(&mut self, n: u32, v: u64) {
+        assert!(n <= 64, "BitOut::put of {n} bits");
         for i in (0..n).rev() {
             let bit = ((v >> i) & 1) as u8;
             if self.nbits % 8 == 0 {
